@@ -45,6 +45,7 @@
  */
 pthread_once_t       snoopy_tsrm_init_onceControl = PTHREAD_ONCE_INIT;
 pthread_mutex_t      snoopy_tsrm_threadRepo_mutex;
+pthread_mutex_t      snoopy_tsrm_libcGuard_mutex;
 pthread_mutexattr_t  snoopy_tsrm_threadRepo_mutexAttr;
 list_t               snoopy_tsrm_threadRepo_data = {
     .first = NULL,
@@ -184,6 +185,7 @@ void snoopy_tsrm_init ()
     pthread_mutexattr_init   (&snoopy_tsrm_threadRepo_mutexAttr);
     pthread_mutexattr_settype(&snoopy_tsrm_threadRepo_mutexAttr, PTHREAD_MUTEX_RECURSIVE);
     pthread_mutex_init       (&snoopy_tsrm_threadRepo_mutex, &snoopy_tsrm_threadRepo_mutexAttr);
+    pthread_mutex_init       (&snoopy_tsrm_libcGuard_mutex,  &snoopy_tsrm_threadRepo_mutexAttr);
 
     // Keep threadRepo (and its mutex) usable in children forked from a multithreaded process
     pthread_atfork(&snoopy_tsrm_atfork_prepare, &snoopy_tsrm_atfork_parent, &snoopy_tsrm_atfork_child);
@@ -207,6 +209,8 @@ void snoopy_tsrm_init ()
  */
 void snoopy_tsrm_atfork_prepare ()
 {
+    // Order matters: a thread that holds the libc guard never asks for the threadRepo mutex
+    pthread_mutex_lock(&snoopy_tsrm_libcGuard_mutex);
     pthread_mutex_lock(&snoopy_tsrm_threadRepo_mutex);
     snoopy_tsrm_forkParentPid  = getpid();
     snoopy_tsrm_forkInProgress = SNOOPY_TRUE;
@@ -231,6 +235,7 @@ void snoopy_tsrm_atfork_parent ()
 {
     snoopy_tsrm_forkInProgress = SNOOPY_FALSE;
     pthread_mutex_unlock(&snoopy_tsrm_threadRepo_mutex);
+    pthread_mutex_unlock(&snoopy_tsrm_libcGuard_mutex);
 }
 
 
@@ -258,9 +263,10 @@ void snoopy_tsrm_atfork_child ()
     listNode_t                 *nextNode;
     snoopy_tsrm_threadData_t   *tData;
 
-    // Re-create the mutex
+    // Re-create the mutexes
     snoopy_tsrm_forkInProgress = SNOOPY_FALSE;
     pthread_mutex_init(&snoopy_tsrm_threadRepo_mutex, &snoopy_tsrm_threadRepo_mutexAttr);
+    pthread_mutex_init(&snoopy_tsrm_libcGuard_mutex,  &snoopy_tsrm_threadRepo_mutexAttr);
 
     // Remove entries of threads that were not carried over to the child
     myThreadId = snoopy_tsrm_getCurrentThreadId();
@@ -276,6 +282,36 @@ void snoopy_tsrm_atfork_child ()
         }
         curNode = nextNode;
     }
+}
+
+
+
+/*
+ * snoopy_tsrm_libcGuard_enter / snoopy_tsrm_libcGuard_leave
+ *
+ * Description:
+ *     Bracket a call of a libc function that works under a libc-internal lock which
+ *     fork() does not reset in the child (localtime_r() and strftime(): the time zone
+ *     lock, held while /etc/localtime is looked at). The fork handlers take the same
+ *     guard, so no fork() happens while a thread is inside such a call on our behalf -
+ *     otherwise the child, made of the forking thread only, would wait forever for
+ *     that lock in its own exec call.
+ *
+ * Params:
+ *     (none)
+ *
+ * Return:
+ *     void
+ */
+void snoopy_tsrm_libcGuard_enter ()
+{
+    pthread_once(&snoopy_tsrm_init_onceControl, &snoopy_tsrm_init);
+    pthread_mutex_lock(&snoopy_tsrm_libcGuard_mutex);
+}
+
+void snoopy_tsrm_libcGuard_leave ()
+{
+    pthread_mutex_unlock(&snoopy_tsrm_libcGuard_mutex);
 }
 
 
